@@ -814,9 +814,10 @@ func vprRunBatch(t *testing.T, scens []*vprScen, panics *vprQuiet) string {
 	}
 	note := ""
 	vprHangMu.Lock()
-	patience := 25 * time.Second
-	if vprHangs >= 2 {
-		patience = 4 * time.Second
+	patience := 15 * time.Second
+	closePatience := 5 * time.Second
+	if vprHangs >= 1 {
+		patience, closePatience = 3*time.Second, time.Second
 	}
 	vprHangMu.Unlock()
 	got := 0
@@ -860,9 +861,9 @@ func vprRunBatch(t *testing.T, scens []*vprScen, panics *vprQuiet) string {
 	}()
 	select {
 	case <-closed:
-	case <-time.After(5 * time.Second):
+	case <-time.After(closePatience):
 		if note == "" {
-			note = "hang: producer did not close within 5s"
+			note = "hang: producer did not close in time"
 		}
 	}
 	return note
